@@ -111,6 +111,8 @@ LIB: Dict[str, Dict[str, Any]] = {
     "VArrayDefaultProbe": dict(kind="probe", params=[], inp="Float", fn=lambda d: d * 2.0),
     # referenced as module:Class; the module also defines another FloatSquareOperation which must stay unreachable
     "verif.lib.shadow:VShadowOnly": dict(kind="operation", params=[], inp="Float", out="Float", fn=lambda d: d),
+    "VShadowLate": dict(kind="operation", params=[], inp="Float", out="Float", fn=lambda d: d),
+    "verif.lib.shadow:VShadowLate": dict(kind="operation", params=[], inp="Float", out="Float", fn=lambda d: d),
     # not a component at all: a processor reference nothing resolves (configuration error at node construction)
     "NoSuchProcessorXYZ": dict(kind="operation", params=[], inp="Float", out="Float", fn=lambda d: d),
     "VNestedParamOp": dict(kind="operation", params=[("opts", NODEF)], inp="Float", out="Float",
